@@ -68,19 +68,19 @@ def t3(rep, tier, seed):
             f.write(",".join(hdr) + "\n")
             for r in range(1, 8):
                 f.write(",".join(("p;q;r" if i == 4 else ["p:1;bare;r:3", "q:0;bare", "s:5"][r % 3] if i == 6 else "%d" % (r * 100 + i)) for i in range(1, 15)) + "\n")
-        lookups = ["put", "$z = $k4_2 . \"!\" . $k9 . $new . $k1 . $k14 . $k4_1"]
+        lookups = ["put", "$z = $k4_2 . \"!\" . $k9 . $new . $k1 . $k14 . $k4_1 . \"!\" . " + " . ".join("$k%d" % i for i in range(1, 15))]
         movers = [
             ["nest", "--explode", "--values", "--across-fields", "--nested-fs", ";", "-f", "k4"],
             ["nest", "--explode", "--values", "--across-records", "--nested-fs", ";", "-f", "k4"],
             ["nest", "--explode", "--pairs", "--across-fields", "--nested-fs", ";", "--nested-ps", ":", "-f", "k6"],
             ["rename", "k9,new"], ["rename", "-r", "^k1(.)$,new\\1"], ["reorder", "-f", "k9"], ["reorder", "-e", "-f", "k2"],
-            ["put", "$[[3]] = \"new\""], ["put", "$[[[3]]] = \"v\"; unset $k5; $k5 = 1"], ["put", "$* = mapexcept($*, \"k6\"); $new = 5"],
+            ["put", "$[[3]] = \"new\""], ["put", "$[[3]] = \"k9\""], ["put", "$[[12]] = \"k1\"; $k1 = 7"], ["put", "$* = mapsum({\"new\": 0}, $*); $[[1]] = \"k9\""], ["put", "$[[[3]]] = \"v\"; unset $k5; $k5 = 1"], ["put", "$* = mapexcept($*, \"k6\"); $new = 5"],
             ["cut", "-o", "-f", "k9,k4,k1,k14"], ["cut", "-x", "-f", "k2"], ["sort-within-records"], ["sort-within-records", "-r"],
             ["sec2gmt", "k9"], ["fill-down", "-f", "k9"], ["unsparsify", "--fill-with", "X", "-f", "new"], ["template", "-f", "k14,new,k4,k1,k9"],
             ["sub", "-f", "k9", "0", "o"], ["split-join" if False else "cat", "-n"], ["label", "new"], ["regularize"], ["altkv" if False else "cat"],
         ]
         for mv in movers:
-            for second in [lookups, ["cut", "-o", "-f", "k9,new,k4_2,k1"], ["cut", "-o", "-f", "k6,p,r,k1"], ["put", "$z = $k6 . $p . $r . $k4"], ["sort", "-f", "k9", "-nr", "k1"], ["count-distinct", "-f", "k9,new"], ["head", "-n", "2", "-g", "k4_1"]]:
+            for second in [lookups, ["cut", "-x", "-f", "k2,k9"], ["cut", "-o", "-f", "k14,k2,k1"], ["cut", "-o", "-f", "k9,new,k4_2,k1"], ["cut", "-o", "-f", "k6,p,r,k1"], ["put", "$z = $k6 . $p . $r . $k4"], ["sort", "-f", "k9", "-nr", "k1"], ["count-distinct", "-f", "k9,new"], ["head", "-n", "2", "-g", "k4_1"]]:
                 argv0 = ["--icsv", "--ojson"] + mv + ["then"] + second + [wide]
                 ref = t3util.run(mlr, ["--no-hash-records"] + argv0)
                 for flags in [["--hash-records"], [], ["--hash-records", "--records-per-batch", "1"]]:
